@@ -187,7 +187,11 @@ int main(int argc, char **argv) {
       k->rd.r_version = 1; k->rd.r_map = u1 ? lm : 0;
       if (u2 == 2) { /* r_debug straddles the end of the mapping: move it to the last 8 bytes of page 2 and unmap nothing after (page 2 is the end) */
         struct r_debug *rd2 = (struct r_debug *)(m + 8192 - 8); memcpy(rd2, &k->rd, 8); k->dyn[0].d_un.d_ptr = (uintptr_t)rd2; munmap(m + 8192, 0); }
-      for (unsigned i = 0; i < u1 && i < 32; i++) { lm[i].l_addr = 0x10000 * (i + 1); snprintf(names + 64 * i, 64, "/fake/lib%u.so", i); lm[i].l_name = names + 64 * i;
+      for (unsigned i = 0; i < u1 && i < 32; i++) { lm[i].l_addr = 0x10000 * (i + 1);
+        /* kind 3: the names sit at the very end of their page, which is followed by unmapped memory (the last one ends with the page) */
+        char *slot = u2 == 3 ? (char *)m + 8192 - 16 * (i + 1) : names + 64 * i;
+        snprintf(slot, u2 == 3 ? 16 : 64, "/fake/lib%u.so", i); lm[i].l_name = slot;
+        if (u2 == 4) slot[6] = (char)0xff;   /* kind 4: a name that is not valid UTF-8 */
         lm[i].l_ld = (void *)(uintptr_t)(0x2000 + i); lm[i].l_next = i + 1 < u1 ? &lm[i + 1] : (u2 == 1 ? &lm[0] : 0); }
       fl += snprintf(facts + fl, sizeof facts - fl, " chain=%lx", (unsigned long)m);
     }
